@@ -2855,6 +2855,7 @@ func (dsc *dataStoreCommand) setMove(source, destination, memberName string) (ou
 	}
 
 	ss.remove(memberName)
+	dsc.setDirty()
 
 	output.data = respInt(added)
 	return
